@@ -128,14 +128,15 @@ def _module_path(mod):
     return os.path.join(LEAN_DIR, *mod.split(".")) + ".lean"
 
 
-def reachable_files():
+def reachable_files(prop=None):
     """Lean files of this project imported (transitively) by the driver, the model root and every
     registered theorem module.  Work-in-progress files that nothing registered imports are not part
     of the deliverable and are not audited (they are not built by any check either)."""
     reg = json.load(open(THEOREMS))
     roots = ["CnvVerif", "Main"]
-    for v in reg.values():
-        roots += v.get("modules") or []
+    for k, v in reg.items():
+        if prop is None or k == prop:
+            roots += v.get("modules") or []
     seen, todo = set(), list(roots)
     while todo:
         m = todo.pop()
@@ -151,9 +152,9 @@ def reachable_files():
     return sorted(_module_path(m) for m in seen)
 
 
-def grep_forbidden():
+def grep_forbidden(prop=None):
     hits = []
-    for p in reachable_files():
+    for p in reachable_files(prop):
         body = strip_comments(open(p).read())
         for m in FORBIDDEN.finditer(body):
             hits.append((os.path.relpath(p, LEAN_DIR), m.group(0).strip()))
@@ -225,7 +226,8 @@ def lean_driver(lines, timeout=3000):
     if not lines:
         return []
     inp = "\n".join(json.dumps(l, separators=(",", ":")) for l in lines) + "\n"
-    r = run(["lake", "env", "lean", "--run", "Main.lean"], cwd=LEAN_DIR, timeout=timeout, inp=inp)
+    main = os.environ.get("VERIF_MAIN", "Main.lean")  # development: a private driver file
+    r = run(["lake", "env", "lean", "--run", main], cwd=LEAN_DIR, timeout=timeout, inp=inp)
     outs = [l for l in r.stdout.split("\n") if l.strip()]
     if r.returncode != 0 or len(outs) != len(lines):
         raise Infra(
@@ -391,7 +393,7 @@ def run_check(prop, tier, seed, replay=None):
             raise Infra("lake build of the model failed:\n" + log[-3000:])
 
     # 3. audit
-    hits = grep_forbidden()
+    hits = grep_forbidden(prop)
     if hits:
         raise Infra(f"forbidden constructs in Lean sources: {hits}")
     if model_broken is None:
